@@ -10,7 +10,8 @@ VARIABLES v_lvl, v_idx
 
 SB(s) == Str(S2B(s))
 Vals == << Null, Bool(TRUE), Bool(FALSE), IntV(0), IntV(3), IntV(0 - 2), Num(96), Num(0 - 160), Num(32), Num(0 - 32),
-           SB(""), SB("hello world"), SB(" a b  "), SB("o'reilly-x_y z"), SB("ab"), SB("a b&c/d~e"), Str(<<195, 169, 97>>), SB("0"), SB("-1.5"),
+           SB(""), SB("hello world"), SB(" a b  "), SB("o'reilly-x_y z"), SB("ab"), SB("a b&c/d~e"), Str(<<195, 169, 97>>), SB("0"), SB("-1.5"), SB("q\"<b>&\\"), Str(<<97, 10, 9, 1, 127>>),
+           Arr(<<Null, Bool(TRUE), Num(48), SB("s"), Arr(<<IntV(1)>>), Hash(<< <<S2B("z"), Null>>, <<S2B("a<"), Arr(<<>>)>> >>)>>),
            Arr(<<>>), Arr(<<IntV(1), SB("b"), IntV(3)>>), Arr(<<SB("x")>>), Arr(<<IntV(1), IntV(2), IntV(3), IntV(4), IntV(5)>>),
            Hash(<<>>), Hash(<< <<S2B("k"), IntV(1)>> >>), Hash(<< <<S2B("b"), IntV(2)>>, <<S2B("a"), IntV(1)>> >>) >>
 NoArg == << <<>> >>
@@ -20,10 +21,14 @@ ArgsOf(f) ==
     [] f = "merge" -> << <<Arr(<<IntV(9)>>)>>, <<Arr(<<>>)>>, <<Hash(<< <<S2B("z"), IntV(9)>> >>)>>, <<Hash(<<>>)>> >>
     [] f = "batch" -> << <<IntV(2)>>, <<IntV(2), SB("-")>>, <<IntV(3), IntV(0)>>, <<IntV(4), Null>> >>
     [] f = "replace" -> << <<Hash(<< <<S2B("l"), SB("L")>> >>)>>, <<Hash(<< <<S2B("o w"), SB("")>> >>)>>, <<Hash(<<>>)>>, <<SB("x")>> >>
+    [] f = "slice" -> << <<IntV(1), IntV(2)>>, <<IntV(0)>> >>
+    [] f = "split" -> << <<SB(",")>>, <<SB(""), IntV(2)>> >>
+    [] f = "format" -> << <<>>, <<SB("x"), IntV(1)>> >>
     [] f = "round" -> << <<>>, <<IntV(0), SB("ceil")>>, <<IntV(0), SB("floor")>>, <<IntV(0 - 1)>> >>
     [] OTHER -> NoArg
 Fs == << "upper", "lower", "capitalize", "title", "trim", "url_encode", "abs", "default", "length", "first", "last", "reverse", "keys", "join",
-         "merge", "batch", "replace", "round" >>
+         "merge", "batch", "replace", "round", "json_encode", "slice", "sort", "split", "striptags", "format", "nl2br", "number_format",
+         "convert_encoding", "date_modify" >>
 CaseSeq == LET RECURSIVE All(_)
                All(fi) == IF fi > Len(Fs) THEN <<>>
                           ELSE LET f == Fs[fi]  as == ArgsOf(f) IN
